@@ -37,7 +37,7 @@ def check_triple(ctx, cid, P, T, M, W):
         return
     t = o.value
     ctx.check((t.T, t.M, t.W) == (T, M, W), 'forward:parameters-not-kept', cid, got=[t.T, t.M, t.W], **d)
-    s = np.linspace(0, M, 2001)
+    s = np.linspace(0, M, 2001 if cid[-1] % 40 != 3 else 200001)      # (now and then a long array: chunked / tabulated fast paths)
     x = np.asarray(t.transform_non_affine(s), dtype=float)
     p = ref.solve_p(W)
     xr = ref.forward(s, T, M, W, p)
@@ -163,7 +163,7 @@ def run(ctx):
         datas, ys, rk = [], [], []
         nonpos = kind == 0 and rng.random() < 0.3        # every data set of this case is without a positive value
         for _ in range(nlist):
-            N = int(rng.integers(3, 80))
+            N = int(rng.integers(3, 80)) if cid[1] % 30 != 4 else int(rng.choice([70001, 150000]))
             if kind == 0:     # plain arrays (no range): 1-D or 2-D
                 a = rng.normal(200, 400, size=(N, 3)) if rng.random() < 0.6 else np.abs(rng.normal(200, 400, size=(N, 3))) + 1
                 ch = 1
